@@ -618,7 +618,23 @@ func runTree(t *rapid.T, r *rec.Recorder) {
 			all := w.acceptedIDs(nil)
 			pid := rapid.SampledFrom(all).Draw(t, "probeParent")
 			if w.listed && !w.onHeadAncestry(pid) {
-				r.Exclude(kfNonHead)
+				// known finding: such a child is rejected. Only that exact manifestation is tolerated (and
+				// counted as excluded); if the client accepts the child, everything else must be right.
+				if child := w.freshChild(t, pid, "probe-off"); child != nil {
+					pctx, _ := w.ctx.CacheContext()
+					if err := update(c, pctx, child); err != nil {
+						r.Exclude(kfNonHead)
+						r.Label("probe_child_of_off_ancestry_header_rejected_known_finding")
+					} else {
+						scratch := *w.tree
+						scratch.Nodes = append(append([]*ethsim.Node{}, w.tree.Nodes...), &ethsim.Node{
+							ID: len(w.tree.Nodes), Parent: pid, Depth: w.tree.Nodes[pid].Depth + 1, Header: child, Hash: child.Hash()})
+						if msg := checkHeadAndAncestry(c, pctx, &scratch, len(w.tree.Nodes)); msg != "" {
+							w.fail(t, "liveness: fresh child of stored off-ancestry header #%d accepted (head was #%d) but: %s", pid, w.head, msg)
+						}
+						r.Label("probe_child_of_off_ancestry_header_accepted_despite_listed_finding")
+					}
+				}
 				pid = rapid.SampledFrom(w.acceptedIDs(w.onHeadAncestry)).Draw(t, "probeParentOnAncestry")
 			}
 			child := w.freshChild(t, pid, "probe")
